@@ -213,9 +213,13 @@ class GraphMachine(MarkupMachine):
 
     def add_model(self, model, initial=None):
         models = listify(model)
+        # models which are already registered keep their graph; adding them again has no effect
+        known = list(self.models)
         super(GraphMachine, self).add_model(models, initial)
         for mod in models:
             mod = self if mod is self.self_literal else mod
+            if any(mod is k for k in known):
+                continue
             if hasattr(mod, "get_graph"):
                 raise AttributeError(
                     "Model already has a get_graph attribute. Graph retrieval cannot be bound."
